@@ -35,6 +35,9 @@ FINDINGS = {
                               "Overwrite=false / CreateIfNotExist=false are made before the treasure is guarded, so two conditional "
                               "Sets both write, or a Set without CreateIfNotExist re-creates a key deleted meanwhile)",
     "C09-write-outside-guard": "a body writes / saves the record after ReleaseTreasureGuard",
+    "C09-response-read-after-save": "the Increment bodies build their metadata response (createMetaForIncrementResponse) behind obj.Save(id): "
+                                    "with write interval 0 SaveFunction has released the guard by then, and the response carries the "
+                                    "metadata of whoever took the record next",
 }
 
 INC = {"A": 1, "B": 10, "C": 100, "D": 1000}
@@ -130,7 +133,7 @@ def spec_violated(rep):
             deleted = True
             written = set()
             continue
-        m = re.match(r"(\w):(\S+)(?: r=(-?\d+))? q=\[[^\]]*\] c=-?\d+ v=(\S+)", line)
+        m = re.match(r"(\w):(\S+)(?: r=(-?\d+))?(?: by=(\w*))? q=\[[^\]]*\] c=-?\d+ v=(\S+)", line)
         if f[0] == "reload":
             mm = re.match(r"reload v=(\S+)", line)
             if mm and head[3] != "m" and written and mm.group(1) == "absent":
@@ -138,7 +141,9 @@ def spec_violated(rep):
             continue
         if not m:
             continue
-        t, state, r, v = m.groups()
+        t, state, r, by, v = m.groups()
+        if by is not None and r is not None and by != t:
+            return "call %s answered with the metadata stamped by %s (UpdatedBy=%s): its response was read after it let go of the record" % (t, by, by)
         if state in ("3", "3w", "4", "5"):
             written.add(t)
         base = 0 if deleted else 5
